@@ -280,6 +280,22 @@ pub fn run_c17(env: &Env) -> Report {
                                 let cls = "selection-differs-with-learned-raw-text";
                                 rep.violation("C17", cls, format!("text {:?}: preselection {} (on) vs {} (off) in {:?}", txt, sa, sb, cb), ctx.clone());
                             }
+                            // positive clause: every candidate that is not the raw typed text (or the emoticon's emoji) carries the
+                            // word's punctuation with ALL its straight quotes curled — opening before the word, closing after it
+                            if !fixed && ca.len() == cb.len() {
+                                let (cp0, w0, cr0) = { let mut o2 = off; o2.smart_quote = false; wrapping(&env.data, &o2, &txt) };
+                                if !w0.is_empty() {
+                                    let emo = env.data.emoticons.get(txt.as_str()).copied();
+                                    for (x, y) in ca.iter().zip(cb.iter()) {
+                                        let raw = *y == txt || emo == Some(y.as_str());
+                                        let exp = if raw { y.clone() } else { match unwrap_cand(y, &cp0, &cr0) { Some(core) => format!("{}{}{}", curl_open(&cp0), core, curl_close(&cr0)), None => y.clone() } };
+                                        if *x != exp && !(raw && *x == format!("{}{}{}", curl_open(&cp0), unwrap_cand(y, &cp0, &cr0).unwrap_or(""), curl_close(&cr0))) {
+                                            rep.violation("C17", "quotes-not-curled-as-specified", format!("text {:?}: with the option on the candidate is {:?}, expected {:?} (off: {:?})", txt, x, exp, y), ctx.clone());
+                                            break;
+                                        }
+                                    }
+                                }
+                            }
                             // curling only around a non-empty word, only in the punctuation
                             let (_, w, _) = split(&txt, false);
                             if w.is_empty() && ca != cb { rep.violation("C17", "punctuation-only-text-changed", format!("text {:?}: {:?} vs {:?}", txt, ca, cb), ctx.clone()); }
